@@ -20,12 +20,15 @@
 (*   QMax        finite-state abstraction: a worker does not run more than *)
 (*               QMax results ahead of the collector                       *)
 (*   Outcomes    frame outcomes a worker may produce                       *)
+(*   BoundedSend the result channel is a BOUNDED channel of capacity QMax   *)
+(*               whose send blocks (a variant of the design that deadlocks *)
+(*               at join: negative configuration); FALSE = as built        *)
 (*   RQMax       periodic reports are only modelled while fewer than RQMax *)
 (*               reports are pending (finite-state abstraction)            *)
 (***************************************************************************)
 EXTENDS BerStats, TLC
 
-CONSTANTS W, Target, Epochs, KeepSender, JoinUnwrap, Faults, QMax, Outcomes, BchThreshold, MaxFrames, RQMax
+CONSTANTS W, Target, Epochs, KeepSender, JoinUnwrap, Faults, QMax, Outcomes, BchThreshold, MaxFrames, RQMax, BoundedSend
 
 Workers == 1..W
 ErrRec == [be |-> -1, ok |-> FALSE, it |-> 0]       \* the Err(()) a worker sends when a stage fails (TLC cannot compare a record with a string)
@@ -121,6 +124,7 @@ Fold(seq, k) == FoldT(seq, k, BchThreshold)
   }
 
   fair process (Worker \in Workers)
+    variables pend = ErrRec; sending = FALSE;
   {
   w_wait:
     while (TRUE) {
@@ -131,8 +135,8 @@ Fold(seq, k) == FoldT(seq, k, BchThreshold)
       } else {
         either {                                       \* simulate one frame and send the result
           with (o \in Outcomes) {
-            await Len(queue) < QMax;
-            queue := Append(queue, o);
+            if (BoundedSend) { pend := o; sending := TRUE; }              \* committed to a send that may block
+            else { await Len(queue) < QMax; queue := Append(queue, o); }  \* unbounded channel (abstraction: not more than QMax ahead)
           }
         } or {                                         \* a stage (puncturer) returns an error: send Err, then exit with it
           await "stage_err" \in Faults;
@@ -142,16 +146,22 @@ Fold(seq, k) == FoldT(seq, k, BchThreshold)
           await "panic" \in Faults;
           wstate[self] := "panic"; senders := senders \ {self};
         }
+      };
+  w_send:
+      if (sending) {                                   \* only with BoundedSend: SyncSender::send blocks while the queue is full
+        await Len(queue) < QMax;
+        queue := Append(queue, pend); sending := FALSE;
       }
     }
   }
 } *)
-\* BEGIN TRANSLATION (chksum(pcal) = "56d76cc2" /\ chksum(tla) = "897b92e3")
+\* BEGIN TRANSLATION (chksum(pcal) = "5f4a7204" /\ chksum(tla) = "f02b6b47")
 VARIABLES pc, queue, senders, term, wstate, epoch, stats, consumed, published, 
-          reports, rq, lastRep, lines, result, r, failed, x
+          reports, rq, lastRep, lines, result, r, failed, x, pend, sending
 
 vars == << pc, queue, senders, term, wstate, epoch, stats, consumed, 
-           published, reports, rq, lastRep, lines, result, r, failed, x >>
+           published, reports, rq, lastRep, lines, result, r, failed, x, pend, 
+           sending >>
 
 ProcSet == {0} \cup {-1} \cup (Workers)
 
@@ -174,6 +184,9 @@ Init == (* Global variables *)
         /\ failed = FALSE
         (* Process Progress *)
         /\ x = 0
+        (* Process Worker *)
+        /\ pend = [self \in Workers |-> ErrRec]
+        /\ sending = [self \in Workers |-> FALSE]
         /\ pc = [self \in ProcSet |-> CASE self = 0 -> "c_epoch"
                                         [] self = -1 -> "p_loop"
                                         [] self \in Workers -> "w_wait"]
@@ -191,7 +204,7 @@ c_epoch == /\ pc[0] = "c_epoch"
                       /\ UNCHANGED << queue, senders, term, wstate, stats, 
                                       consumed >>
            /\ UNCHANGED << epoch, published, reports, rq, lastRep, lines, 
-                           result, r, failed, x >>
+                           result, r, failed, x, pend, sending >>
 
 c_loop == /\ pc[0] = "c_loop"
           /\ IF ErrorsForTermination(stats) < Target
@@ -199,7 +212,7 @@ c_loop == /\ pc[0] = "c_loop"
                 ELSE /\ pc' = [pc EXCEPT ![0] = "c_stop"]
           /\ UNCHANGED << queue, senders, term, wstate, epoch, stats, consumed, 
                           published, reports, rq, lastRep, lines, result, r, 
-                          failed, x >>
+                          failed, x, pend, sending >>
 
 c_recv == /\ pc[0] = "c_recv"
           /\ queue # <<>> \/ senders = {}
@@ -215,7 +228,7 @@ c_recv == /\ pc[0] = "c_recv"
                                 /\ consumed' = Append(consumed, r')
                                 /\ pc' = [pc EXCEPT ![0] = "c_report"]
           /\ UNCHANGED << senders, term, wstate, epoch, published, reports, rq, 
-                          lastRep, lines, result, failed, x >>
+                          lastRep, lines, result, failed, x, pend, sending >>
 
 c_report == /\ pc[0] = "c_report"
             /\ \/ /\ IF Len(rq) < RQMax
@@ -227,7 +240,7 @@ c_report == /\ pc[0] = "c_report"
             /\ pc' = [pc EXCEPT ![0] = "c_loop"]
             /\ UNCHANGED << queue, senders, term, wstate, epoch, stats, 
                             consumed, published, reports, lastRep, lines, 
-                            result, r, failed, x >>
+                            result, r, failed, x, pend, sending >>
 
 c_stop == /\ pc[0] = "c_stop"
           /\ reports' = Append(reports, "final")
@@ -235,7 +248,8 @@ c_stop == /\ pc[0] = "c_stop"
           /\ term' = [w \in Workers |-> 1]
           /\ pc' = [pc EXCEPT ![0] = "c_join"]
           /\ UNCHANGED << queue, senders, wstate, epoch, stats, consumed, 
-                          published, lastRep, lines, result, r, failed, x >>
+                          published, lastRep, lines, result, r, failed, x, 
+                          pend, sending >>
 
 c_join == /\ pc[0] = "c_join"
           /\ \A w \in Workers : wstate[w] \in {"ok", "err", "panic"}
@@ -254,7 +268,7 @@ c_join == /\ pc[0] = "c_join"
                      /\ pc' = [pc EXCEPT ![0] = "c_epoch"]
                      /\ UNCHANGED result
           /\ UNCHANGED << queue, term, wstate, stats, consumed, reports, rq, 
-                          lastRep, lines, r, x >>
+                          lastRep, lines, r, x, pend, sending >>
 
 c_fin == /\ pc[0] = "c_fin"
          /\ reports' = Append(reports, "Finished")
@@ -262,14 +276,15 @@ c_fin == /\ pc[0] = "c_fin"
          /\ result' = IF failed THEN "error" ELSE "ok"
          /\ pc' = [pc EXCEPT ![0] = "c_done"]
          /\ UNCHANGED << queue, senders, term, wstate, epoch, stats, consumed, 
-                         published, lastRep, lines, r, failed, x >>
+                         published, lastRep, lines, r, failed, x, pend, 
+                         sending >>
 
 c_done == /\ pc[0] = "c_done"
           /\ TRUE
           /\ pc' = [pc EXCEPT ![0] = "Done"]
           /\ UNCHANGED << queue, senders, term, wstate, epoch, stats, consumed, 
                           published, reports, rq, lastRep, lines, result, r, 
-                          failed, x >>
+                          failed, x, pend, sending >>
 
 Collector == c_epoch \/ c_loop \/ c_recv \/ c_report \/ c_stop \/ c_join
                 \/ c_fin \/ c_done
@@ -280,7 +295,7 @@ p_loop == /\ pc[-1] = "p_loop"
           /\ rq' = Tail(rq)
           /\ IF x' = 0
                 THEN /\ Assert(lastRep # -1, 
-                               "Failure of assertion at line 111, column 9.")
+                               "Failure of assertion at line 114, column 9.")
                      /\ lines' = Append(lines, lastRep)
                      /\ pc' = [pc EXCEPT ![-1] = "p_done"]
                      /\ UNCHANGED lastRep
@@ -291,14 +306,14 @@ p_loop == /\ pc[-1] = "p_loop"
                      /\ lastRep' = x'
                      /\ pc' = [pc EXCEPT ![-1] = "p_loop"]
           /\ UNCHANGED << queue, senders, term, wstate, epoch, stats, consumed, 
-                          published, reports, result, r, failed >>
+                          published, reports, result, r, failed, pend, sending >>
 
 p_done == /\ pc[-1] = "p_done"
           /\ TRUE
           /\ pc' = [pc EXCEPT ![-1] = "Done"]
           /\ UNCHANGED << queue, senders, term, wstate, epoch, stats, consumed, 
                           published, reports, rq, lastRep, lines, result, r, 
-                          failed, x >>
+                          failed, x, pend, sending >>
 
 Progress == p_loop \/ p_done
 
@@ -307,31 +322,49 @@ w_wait(self) == /\ pc[self] = "w_wait"
                 /\ pc' = [pc EXCEPT ![self] = "w_poll"]
                 /\ UNCHANGED << queue, senders, term, wstate, epoch, stats, 
                                 consumed, published, reports, rq, lastRep, 
-                                lines, result, r, failed, x >>
+                                lines, result, r, failed, x, pend, sending >>
 
 w_poll(self) == /\ pc[self] = "w_poll"
                 /\ IF term[self] = 1
                       THEN /\ wstate' = [wstate EXCEPT ![self] = "ok"]
                            /\ senders' = senders \ {self}
-                           /\ queue' = queue
+                           /\ UNCHANGED << queue, pend, sending >>
                       ELSE /\ \/ /\ \E o \in Outcomes:
-                                      /\ Len(queue) < QMax
-                                      /\ queue' = Append(queue, o)
+                                      IF BoundedSend
+                                         THEN /\ pend' = [pend EXCEPT ![self] = o]
+                                              /\ sending' = [sending EXCEPT ![self] = TRUE]
+                                              /\ queue' = queue
+                                         ELSE /\ Len(queue) < QMax
+                                              /\ queue' = Append(queue, o)
+                                              /\ UNCHANGED << pend, sending >>
                                  /\ UNCHANGED <<senders, wstate>>
                               \/ /\ "stage_err" \in Faults
                                  /\ queue' = Append(queue, ErrRec)
                                  /\ wstate' = [wstate EXCEPT ![self] = "err"]
                                  /\ senders' = senders \ {self}
+                                 /\ UNCHANGED <<pend, sending>>
                               \/ /\ "panic" \in Faults
                                  /\ wstate' = [wstate EXCEPT ![self] = "panic"]
                                  /\ senders' = senders \ {self}
-                                 /\ queue' = queue
-                /\ pc' = [pc EXCEPT ![self] = "w_wait"]
+                                 /\ UNCHANGED <<queue, pend, sending>>
+                /\ pc' = [pc EXCEPT ![self] = "w_send"]
                 /\ UNCHANGED << term, epoch, stats, consumed, published, 
                                 reports, rq, lastRep, lines, result, r, failed, 
                                 x >>
 
-Worker(self) == w_wait(self) \/ w_poll(self)
+w_send(self) == /\ pc[self] = "w_send"
+                /\ IF sending[self]
+                      THEN /\ Len(queue) < QMax
+                           /\ queue' = Append(queue, pend[self])
+                           /\ sending' = [sending EXCEPT ![self] = FALSE]
+                      ELSE /\ TRUE
+                           /\ UNCHANGED << queue, sending >>
+                /\ pc' = [pc EXCEPT ![self] = "w_wait"]
+                /\ UNCHANGED << senders, term, wstate, epoch, stats, consumed, 
+                                published, reports, rq, lastRep, lines, result, 
+                                r, failed, x, pend >>
+
+Worker(self) == w_wait(self) \/ w_poll(self) \/ w_send(self)
 
 Next == Collector \/ Progress
            \/ (\E self \in Workers: Worker(self))
